@@ -50,6 +50,12 @@ static std::vector<Conf> menu()
   m.push_back({"metadynamics-keepHills", d + "metadynamics {\n colvars d\n hillWeight 0.5\n hillWidth 1.0\n newHillFrequency 2\n keepHills on\n}\n", false, false, 0});
   m.push_back({"metadynamics-keepHills-gridfreq3", d + "metadynamics {\n colvars d\n hillWeight 0.5\n hillWidth 1.0\n newHillFrequency 1\n gridsUpdateFrequency 3\n keepHills on\n}\n", false, false, 0, true});
   m.push_back({"metadynamics-gridfreq3", d + "metadynamics {\n colvars d\n hillWeight 0.5\n hillWidth 1.0\n newHillFrequency 1\n gridsUpdateFrequency 3\n}\n", false, false, 0, true});
+  {
+    // a wider grid whose lower boundary lies 3.6 bins below one of the values, and a non-integer hillWidth: hills in the band
+    // between 3*floor(hillWidth) and 3*floor(hillWidth)+1 bins from a boundary are kept as explicit off-grid hills
+    std::string dw = "colvar {\n name d\n width 0.5\n lowerBoundary 1.6\n upperBoundary 7.6\n distance {\n group1 { atomNumbers 1 }\n group2 { atomNumbers 2 }\n }\n}\n";
+    m.push_back({"metadynamics-wide-grid-hillWidth1.9", dw + "metadynamics {\n colvars d\n hillWeight 0.5\n hillWidth 1.9\n newHillFrequency 1\n}\n", false, false, 0});
+  }
   m.push_back({"metadynamics-wellTempered", d + "metadynamics {\n colvars d\n hillWeight 0.5\n hillWidth 1.0\n newHillFrequency 1\n wellTempered on\n biasTemperature 1500.0\n}\n", false, false, 300});
   m.push_back({"metadynamics-expandBoundaries", std::string(CV_D_EXP) + "metadynamics {\n colvars d\n hillWeight 0.5\n hillWidth 1.0\n newHillFrequency 2\n}\n", false, false, 0});
   m.push_back({"opes", d + "opes_metad {\n colvars d\n newHillFrequency 2\n barrier 5.0\n gaussianSigma 0.3\n}\n", false, false, 300});
